@@ -556,6 +556,50 @@ func guardsOf(b *ssa.BasicBlock) []Guard {
 
 var guardDepth int
 
+// mustPass: every path from the function's entry to block `to` takes at
+// least one branch edge whose condition satisfies cut. Unlike guardedBy
+// (dominance) this also holds for join-shaped code: `switch t { case A, B:
+// }; use()` reaches use() only over the edges t==A or t==B although neither
+// dominates it.
+func mustPass(to *ssa.BasicBlock, cut func(Guard) bool) bool {
+	f := to.Parent()
+	if f == nil || len(f.Blocks) == 0 {
+		return false
+	}
+	seen := map[*ssa.BasicBlock]bool{}
+	work := []*ssa.BasicBlock{f.Blocks[0]}
+	for len(work) > 0 {
+		b := work[len(work)-1]
+		work = work[:len(work)-1]
+		if seen[b] {
+			continue
+		}
+		seen[b] = true
+		if b == to {
+			return false
+		}
+		iff, isIf := b.Instrs[len(b.Instrs)-1].(*ssa.If)
+		for i, sc := range b.Succs {
+			if isIf && len(b.Succs) == 2 && b.Succs[0] != b.Succs[1] {
+				cond, br := iff.Cond, i == 0
+				for {
+					if u, ok := cond.(*ssa.UnOp); ok && u.Op == token.NOT {
+						cond, br = u.X, !br
+						continue
+					}
+					break
+				}
+				if cut(Guard{Cond: cond, Branch: br, If: iff}) {
+					continue
+				}
+			}
+			work = append(work, sc)
+		}
+	}
+	// a single-caller helper: the call site's own paths count as well
+	return true
+}
+
 // guardedBy reports whether some dominating guard satisfies pred.
 func guardedBy(b *ssa.BasicBlock, pred func(g Guard) bool) bool {
 	for _, g := range guardsOf(b) {
